@@ -72,6 +72,7 @@ class Opts:
     multi_2xx: bool = False         # several of 200/201/202/204 with different bodies, listed in any order
     error_only_ops: bool = False    # some operations document no 2xx and no default response at all (only errors, or nothing)
     component_responses: bool = False  # error responses taken from components.responses through $ref, one entry under several statuses
+    shared_error_codes: bool = False   # error statuses drawn from three codes only, so that several operations reference the SAME components.responses entry under the SAME status (round 5, C19-7)
     yaml_media: bool = False        # some responses / request bodies declare only YAML media types (application/yaml, application/x-yaml)
     multi_media_resp: bool = False  # a 2xx response with several media types of different python types (Content-Type dispatch)
 
@@ -420,7 +421,8 @@ def gen_responses(r: random.Random, o: Opts, schemas: dict) -> dict:
                 content = {"text/plain": {"schema": {"type": "string"}}}
             resp[c] = {"description": f"status {c}", "content": content}
     if o.error_responses:
-        for c in r.sample(["400", "401", "403", "404", "409", "418", "422", "429", "500", "501", "502", "503"], r.randint(0, 3)):
+        for c in (r.sample(["400", "404", "500"], r.randint(1, 2)) if o.shared_error_codes else
+                  r.sample(["400", "401", "403", "404", "409", "418", "422", "429", "500", "501", "502", "503"], r.randint(0, 3))):
             resp[c] = {"description": f"error {c}"}
             if o.component_responses and r.random() < 0.7:
                 resp[c] = {"$ref": "#/components/responses/" + r.choice(sorted(COMPONENT_RESPONSES))}
